@@ -291,15 +291,18 @@ class Run:
 
 
 def execute(history, start, limit, plan, seq_json=None):
-    """plan = None | (op index, effect number within that op, mode).  Returns (run, effects per op)."""
+    """plan = None | (op index, effect number within that op, mode) | a list of such triples (several crashes).
+    Returns (run, effects per op, effect names)."""
+    plans = [] if plan is None else ([plan] if isinstance(plan, tuple) else list(plan))
     r = Run(start, limit, seq_json)
     per_op = []
     names = []
     try:
         for i, op in enumerate(history):
             base = r.fs.n
-            if plan is not None and plan[0] == i:
-                r.fs.plan = (base + plan[1], plan[2])
+            mine = [p for p in plans if p[0] == i]
+            if mine:
+                r.fs.plan = (base + mine[0][1], mine[0][2])
             try:
                 r.op(op)
             except Crash:
@@ -322,7 +325,7 @@ def execute(history, start, limit, plan, seq_json=None):
 OPS = [("P",), ("A", 0), ("A", 1), ("A", 5), ("AE", 6), ("R",), ("S",), ("X",)]
 
 
-def check_history(res, history, start, limit, seq_json=None, crashes=True):
+def check_history(res, history, start, limit, seq_json=None, crashes=True, double=False):
     base = {"history": [list(o_) for o_ in history], "start": start, "limit": limit, "seq": seq_json}
     r, per_op, names = execute(history, start, limit, None, seq_json)
     res.evaluations += 1
@@ -350,6 +353,23 @@ def check_history(res, history, start, limit, seq_json=None, crashes=True):
                     res.violate(v)
                 res.signatures.add(core.digest((history, start, limit, i, k, mode)))
                 res.outcomes.add(core.digest((len(rr.issued), len(rr.accepted_ever), rr.unclean)))
+                if double:
+                    # a second crash in every later operation of the run that already crashed once
+                    _, per2, names2 = execute(history, start, limit, (i, k, mode), seq_json)
+                    pos2 = sum(per2[:i + 1])
+                    for j in range(i + 1, len(per2)):
+                        for k2 in range(1, per2[j] + 1):
+                            for mode2 in ("before", "after"):
+                                r2, _, _ = execute(history, start, limit, [(i, k, mode), (j, k2, mode2)], seq_json)
+                                res.evaluations += 1
+                                res.traces += 1
+                                for v in r2.violations:
+                                    v["case"] = core.jsonable(dict(base, crash=[[i, k, mode], [j, k2, mode2]]))
+                                    v["trace"] = r2.trace[-30:]
+                                    v["key"] = v["key"] + "@double"
+                                    res.violate(v)
+                                res.signatures.add(core.digest((history, start, limit, i, k, mode, j, k2, mode2)))
+                        pos2 += per2[j]
         pos += n
     return r
 
@@ -373,6 +393,9 @@ def job(arg):
         # long runs of protects across several chunk boundaries, with a stop in the middle
         h = tuple([("P",)] * 12 + [("A", 1), ("S",)] + [("P",)] * 8)
         check_history(res, h, start, limit)
+        # two crashes in one history (a crash during the recovery from a crash)
+        h2 = (("P",), ("A", 1), ("P",), ("S",), ("P",), ("A", 0), ("A", 1), ("P",))
+        check_history(res, h2, start, limit, double=(tier == "thorough" or (start, limit) == (1, 4)))
         res.sample({"history": "12 x P, A1, S, 8 x P", "chunk_start": start, "chunk_limit": limit})
     else:
         for nts in (MAX - 3, MAX - 2, MAX - 1, MAX):
@@ -400,8 +423,11 @@ def replay(case, scenario, seed):
     h = tuple(tuple(x) for x in case["history"])
     plan = None
     if case.get("crash"):
-        i, k, mode, name = case["crash"]
-        plan = (i, k, mode)
+        if isinstance(case["crash"][0], list):
+            plan = [tuple(c[:3]) for c in case["crash"]]
+        else:
+            i, k, mode, name = case["crash"]
+            plan = (i, k, mode)
     r, per_op, names = execute(h, case["start"], case["limit"], plan, case.get("seq"))
     for line in r.trace:
         print("    ", line)
